@@ -151,11 +151,14 @@ func (w *World) hook(p vsql.Point) error {
 		}
 	}
 	w.logMu.Unlock()
-	if fire != nil {
-		fire()
-	}
 	if tick && (p.Kind == vsql.Stmt || p.Kind == vsql.Begin || p.Kind == vsql.Commit) {
 		time.Sleep(time.Microsecond)
+	}
+	// (after the tick, never before: once the request is cancelled database/sql's
+	// watcher blocks on a lock this statement holds, and virtual time cannot move
+	// while a goroutine waits for a mutex)
+	if fire != nil {
+		fire()
 	}
 	if extra != nil {
 		return extra(p)
